@@ -54,10 +54,20 @@ func RunSeed(prop, profile string, seed uint64, index int) (*Trace, *Stats) {
 	tr := &Trace{Prop: prop, Profile: profile, Seed: seed, Index: index}
 	// a scenario that has started is always completed (bounded), so that the
 	// operation it sets the stage for is actually reached
+	giantSteps := 0
 	for i := 0; i < n || (w.PendingLen() > 0 && i < n+200); i++ {
 		st := w.Generate(r)
 		w.Exec(&st)
 		tr.Steps = append(tr.Steps, st)
+		// universe-scale objects make every later step expensive: a history that holds one
+		// gets a dozen more steps, not the rest of its budget
+		if w.HasGiant() {
+			giantSteps++
+			if giantSteps > 12 && w.PendingLen() == 0 {
+				w.probe("history-cut-short-after-giant")
+				break
+			}
+		}
 	}
 	tr.Fails = w.Fails
 	return tr, w.St
